@@ -12,7 +12,8 @@ MANIFEST = {
             "skip and expectedFailure decorators, missing upcalls, fixtures) and all seven result flavours about a "
             "hand-written Gallina model of RunTest/TestCase.run: the delivered calls are startTest, exactly one "
             "outcome, stopTest; the first exception not derived from Exception is reported as the error and "
-            "propagates after stopTest; proved by invariants over the fuelled cleanup machine, with the handler table "
+            "propagates after stopTest, and setUp, the test and tearDown (iff setUp returned) and every registered "
+            "cleanup still run; proved by invariants over the fuelled cleanup machine, with the handler table "
             "regenerated from the live code. Tied to /repo on every run by differential execution of model and "
             "implementation inside coqc; the oracle for a failing input is the executable statement spec_okb, proved "
             "to imply the readable Spec.",
@@ -39,7 +40,7 @@ ASSUMPTIONS = ["the result object and addOnException handlers do not raise",
                "fixtures raise single exceptions; new-style _setUp and fixture cleanups raise Exception-derived ones"]
 EXPLANATION = ("Theorems in coq/Props/C01.v over all programs and flavours; correspondence: TestCase.run of a "
                "generated testtools.TestCase subclass against each result flavour, compared with coq/Model/Run.v on "
-               "event kinds/order and on what run() raised.")
+               "event kinds/order, on what run() raised and on the set of stage/cleanup bodies that were entered.")
 
 FEATS = frozenset(["details", "patch", "fixture", "onexc", "cells"])
 FEATS_INS = frozenset(["insert", "onexc", "fixture"])      # handlers for Exception-derived classes inserted while running
@@ -48,7 +49,7 @@ FEATS_INS = frozenset(["insert", "onexc", "fixture"])      # handlers for Except
 def drive(case):
     o = R.run_program(case["prog"], case["flavour"])[0]
     evs = [[e[0], e[1]] if e[0] == "out" else [e[0]] for e in o["trace"] if e[0] != "H"]
-    return {"events": evs, "raised": o["raised"]}
+    return {"events": evs, "raised": o["raised"], "ran": [e[1] for e in o["log"] if e[0] == "t"]}
 
 
 RK = {"none": "RNone", "exception": "RException", "kbd": "RKbd", "sysexit": "RSysExit", "base": "RBase"}
@@ -64,7 +65,8 @@ def t_ev(e):
 
 def term(case, o):
     i = q.record([("i_prog", R.t_prog(case["prog"])), ("i_flavour", case["flavour"])])
-    ob = q.record([("o_events", q.lst([t_ev(e) for e in o["events"]])), ("o_raised", RK[o["raised"]])])
+    ob = q.record([("o_events", q.lst([t_ev(e) for e in o["events"]])), ("o_raised", RK[o["raised"]]),
+                   ("o_ran", q.lst([q.nat(t) for t in o["ran"]]))])
     return q.pair(i, ob)
 
 
@@ -112,6 +114,10 @@ def generate(rng, tier):
         R.mkprog(xfail=True, body=[["raise", M()]]),
         R.mkprog(body=[["expect", []]], up_t="none"),
         R.mkprog(up_s="none", setup=[["cleanup", 10, [["raise", E("GenExit")]]]]),
+        # an interrupt stops neither tearDown nor the remaining cleanups
+        R.mkprog(setup=[["cleanup", 10, []], ["cleanup", 11, [["raise", E("Kbd")]]]]),
+        R.mkprog(body=[["raise", E("SysExit")]], teardown=[["cleanup", 10, []]]),
+        R.mkprog(setup=[["cleanup", 10, [["cleanup", 11, []], ["raise", E("GenExit")]]]], body=[["raise", E("Fail")]]),
         # exception_handlers is the very list RunTest consults: a handler inserted while the test runs counts
         R.mkprog(setup=[["cleanup", 10, [["inserthandler", "ValueError", "skip"]]]],
                  body=[["raise", E("Kbd")]], teardown=[["raise", E("ValueError")]]),
